@@ -12,7 +12,7 @@ from vf.engines import v2x
 
 PROP = "C08"
 
-VALUES = [1, 1.5, "s", True, None, [1, "a"], {"k": 1}, "$cv"]  # "$cv" = a variable of the caller (42)
+VALUES = [1, 1.5, "s", True, None, [1, "a"], {"k": 1}, "$cv", "pay $USD 5"]  # "$cv" = a variable of the caller (42)
 DEFAULTS = ["d0", 20, [3]]  # declared default of parameter i
 FORMS = ["assign_await", "await", "implicit", "start_match", "activate", "activate_twice"]
 
